@@ -10,6 +10,7 @@ LEAN_MODULES = ['MV.Props.C02', 'MV.Props.C02b']
 LEAN_HELPERS = ['MV.Lemmas.Pcs', 'MV.Lemmas.Shift', 'MV.Props.C01b', 'MV.Lemmas.Ext', 'MV.Lemmas.Scale', 'MV.Props.C01', 'MV.Model.Pitch', 'MV.Model.Basic']
 DRIVERS = ['C01']
 GEN = ['Tables', 'Library']
+SRC_TIE = ['SrcExt']   # py2lean source images of _chord_notes_calc / chord_notes / invert / … proved equal to the model (MV/Props/TieSrcExt.lean)
 RULE = ('extension texts generated in random written order from the live modifier dictionaries (valid combinations '
         'and a malformed stream: unknown modifiers, anchors that are absent) x degree x tonality; compared: '
         'normalised text, chord_pitches, chord_extension_pitches, invert(k) for k in -9..9, to_root_extension; '
@@ -168,6 +169,8 @@ def correspondence(ctx):
         cases.append({'line': top('rootext'), 'impl': py_res(lambda: '"' + base[text].to_root_extension().extension + '"'),
                       'input': inp, 'bucket': 'op=rootext'})
     ctx.compare('ext', 'C01', cases)
+    import srctie
+    srctie.run(ctx, SRC_TIE)
 
 
 def oracle(ctx):
